@@ -64,6 +64,8 @@ var (
 		"either step command or step call must be specified if executor is nil",
 	)
 	errStepCommandIsEmpty             = errors.New("step command is empty")
+	errStepDefIsEmpty                 = errors.New("step definition is empty")
+	errFunctionDefIsEmpty             = errors.New("function definition is empty")
 	errStepCommandMustBeArrayOrString = errors.New(
 		"step command must be an array of strings or a string",
 	)
@@ -746,6 +748,10 @@ func buildConfigEnv(vars map[string]string) []string {
 func buildConditions(cond []*conditionDef) []Condition {
 	var ret []Condition
 	for _, v := range cond {
+		if v == nil {
+			// a null entry carries no condition
+			continue
+		}
 		ret = append(ret, Condition{
 			Condition: v.Condition,
 			Expected:  v.Expected,
